@@ -45,6 +45,16 @@ theorem load_store_same {d : Deque} {p : Nat} (e : Elem) (h : p < d.elements.len
 theorem load_store_other {d : Deque} {p q : Nat} (e : Elem) (h : p ≠ q) : (d.store p e).load q = d.load q := by
   simp [Deque.load, Deque.store, List.getElem?_set, h]
 
+/-- reading a slot after a store, in general: the stored element if it is that slot (and the slot exists), the old content otherwise -/
+theorem load_store (d : Deque) (p q : Nat) (e : Elem) :
+    (d.store p e).load q = if p = q ∧ p < d.elements.length then e else d.load q := by
+  by_cases h : p = q
+  · subst h
+    by_cases hl : p < d.elements.length
+    · simp [hl, load_store_same _ hl]
+    · simp [hl, Deque.store, List.set_eq_of_length_le (Nat.le_of_not_lt hl)]
+  · simp [h, load_store_other _ h]
+
 theorem store_store_same (d : Deque) (p : Nat) (e e' : Elem) : (d.store p e).store p e' = d.store p e' := by
   simp [Deque.store, List.set_set]
 
